@@ -19,22 +19,24 @@ func PartialServiceAreaListToNas(plmnID models.PlmnId, serviceAreaRestriction mo
 		allowedType = nasMessage.AllowedTypeNonAllowedArea
 	}
 
-	numOfElements := uint8(len(serviceAreaRestriction.Areas))
-
-	firstByte := (allowedType<<7)&0x80 + numOfElements // only support TypeOfList '00' now
 	plmnIDNas := PlmnIDToNas(plmnID)
-
-	partialServiceAreaList = append(partialServiceAreaList, firstByte)
-	partialServiceAreaList = append(partialServiceAreaList, plmnIDNas...)
-
+	var tacList []byte
+	numOfTacs := 0
 	for _, area := range serviceAreaRestriction.Areas {
 		for _, tac := range area.Tacs {
 			if tacBytes, err := hex.DecodeString(tac); err != nil {
 				logger.ConvertLog.Warnf("Decode tac failed: %+v", err)
 			} else {
-				partialServiceAreaList = append(partialServiceAreaList, tacBytes...)
+				tacList = append(tacList, tacBytes...)
+				numOfTacs++
 			}
 		}
 	}
+	// only support TypeOfList '00' now: an element is one TAC and the number of elements is coded minus one
+	firstByte := (allowedType<<7)&0x80 + uint8(numOfTacs-1)&0x1f
+
+	partialServiceAreaList = append(partialServiceAreaList, firstByte)
+	partialServiceAreaList = append(partialServiceAreaList, plmnIDNas...)
+	partialServiceAreaList = append(partialServiceAreaList, tacList...)
 	return partialServiceAreaList
 }
